@@ -1,10 +1,11 @@
 // cfg(kani) child of foyer-memory/src/eviction/s3fifo.rs: stub target for `GhostQueue::contains`.
 // The ghost queue keeps membership twice: in a VecDeque (order, weights) and in a std HashSet (membership test).  std's
 // HashSet is SSE2 hashbrown inside the prebuilt std and out of CBMC's reach (DESIGN 2.5b), so in the S3-FIFO harnesses
-//   * `HashSet::{insert,remove}` are no-ops (see eviction.rs harness), and
+//   * `HashSet::insert` is a no-op and `GhostQueue::pop` is replaced by `verif_pop` (= the shipped body without
+//     `counts.remove`), and
 //   * `GhostQueue::contains` answers from the VecDeque, which holds the same hashes as long as no hash is ghosted twice
 //     (true in the harness: every record has a distinct hash).
-// `GhostQueue::{new,push,pop,update}` - the capacity / trimming logic - run as shipped.
+// `GhostQueue::{new,push,update}` - the capacity / trimming logic - run as shipped.
 #![allow(dead_code)]
 use super::*;
 
@@ -18,6 +19,13 @@ impl GhostQueue {
             i += 1;
         }
         false
+    }
+    /// Stub target for `GhostQueue::pop`: the shipped body minus `self.counts.remove(&hash)` (Kani cannot stub
+    /// `HashSet::remove`: its `Borrow<Q>` signature is rejected).
+    pub(crate) fn verif_pop(&mut self) {
+        if let Some((_hash, weight)) = self.queue.pop_front() {
+            self.weight -= weight;
+        }
     }
     pub(crate) fn verif_weight(&self) -> usize {
         self.weight
@@ -44,5 +52,47 @@ where
     }
     pub(crate) fn verif_small_weight_capacity(&self) -> usize {
         self.small_weight_capacity
+    }
+}
+
+// ---------------------------------------------------------------------------------------------------------------------
+// C14 (S3-FIFO ghost queue, driven directly): three pushes with symbolic weights 1..=2 into a ghost queue of capacity 2.
+// The remembered weight never exceeds the configured share and membership is exactly the most recent window.
+// ---------------------------------------------------------------------------------------------------------------------
+#[allow(dead_code, unused)]
+mod stubs {
+    include!("/verif/harness/common/stubs.rs");
+    pub fn hs_insert<T: Eq + std::hash::Hash, S: std::hash::BuildHasher, A: std::alloc::Allocator>(_this: &mut std::collections::HashSet<T, S, A>, value: T) -> bool {
+        std::mem::forget(value);
+        true
+    }
+    pub fn random_state_fixed() -> std::hash::RandomState {
+        unsafe { std::mem::transmute::<(u64, u64), std::hash::RandomState>((1, 2)) }
+    }
+}
+include!("/verif/harness/common/macros.rs");
+
+verif_harness! {
+    #[kani::stub(std::collections::HashSet::insert, stubs::hs_insert)]
+    #[kani::stub(std::hash::RandomState::new, stubs::random_state_fixed)]
+    #[kani::stub(crate::eviction::s3fifo::GhostQueue::pop, crate::eviction::s3fifo::GhostQueue::verif_pop)]
+    #[kani::stub(crate::eviction::s3fifo::GhostQueue::contains, crate::eviction::s3fifo::GhostQueue::verif_contains)]
+    c14_s3fifo_ghost_direct, 6, {
+        let mut g = GhostQueue::new(2);
+        let w: [usize; 3] = kani::any();
+        kani::assume(w[0] >= 1 && w[0] <= 2 && w[1] >= 1 && w[1] <= 2 && w[2] >= 1 && w[2] <= 2);
+        let mut i = 0;
+        while i < 3 {
+            g.push(i as u64, w[i]);
+            assert!(g.weight <= g.capacity, "C14: S3-FIFO ghost queue remembers more than its configured share");
+            assert!(g.contains(i as u64), "C14: the entry just ghosted is not remembered");
+            i += 1;
+        }
+        assert!(g.contains(1) == (w[1] + w[2] <= 2), "C14: ghost membership is not the most recent window");
+        assert!(g.contains(0) == (w[0] + w[1] + w[2] <= 2));
+        kani::cover!(!g.contains(1), "ghost forgot an entry");
+        kani::cover!(g.contains(1), "ghost kept two entries");
+        kani::cover!(true, "end reached");
+        std::mem::forget(g);
     }
 }
